@@ -55,6 +55,72 @@ for (tname, ttype, nd) in [("u32", "uint32_t", "nondet_u32"), ("i32", "int32_t",
              funcs=[CIQ + ": contiguous_index_queue<%s>::reset" % ttype]),
     ]
 
+# ---- tagged_ptr_pair ----------------------------------------------------------------------------------
+import re as _re
+from vx.lift import read_source, LiftError
+TPP = "libs/pika/concurrency/include/pika/concurrency/detail/tagged_ptr_pair.hpp"
+def _const(pat, default):
+    try:
+        m = _re.search(pat, read_source(TPP))
+        return m.group(1).replace("'", "") if m else default
+    except LiftError:
+        return default
+TPP_DEFS = ["LEFT_TAG_INDEX=" + _const(r"left_tag_index = (\d+);", "3"), "RIGHT_TAG_INDEX=" + _const(r"right_tag_index = (\d+);", "7"),
+            "PTR_MASK=" + _const(r"ptr_mask = (0x[0-9a-f']+);", "0xffffffffffff") + "ull"]
+TPP_RULES = [
+    Sub(r"reinterpret_cast<\s*(?:Left|Right)\s*\*>", "(ptr_t)", None),
+    Sub(r"reinterpret_cast<\s*compressed_ptr_t\s*>", "(compressed_ptr_t)", None),
+    Sub(r"\bi\.(left|right)\b", r"i->\1", None),
+    Sub(r"\bpair = ret\.value;", "*pair = ret.value;", None),
+]
+def tpp_lifts(extra=None):
+    d = {
+        "extract_left_ptr": Lift(TPP, r"static Left\* extract_left_ptr\(", rules=TPP_RULES),
+        "extract_right_ptr": Lift(TPP, r"static Right\* extract_right_ptr\(", rules=TPP_RULES),
+        "extract_left_tag": Lift(TPP, r"static tag_t extract_left_tag\(", rules=TPP_RULES),
+        "extract_right_tag": Lift(TPP, r"static tag_t extract_right_tag\(", rules=TPP_RULES),
+        "pack": Lift(TPP, r"static void pack_ptr_pair\(", rules=TPP_RULES),
+    }
+    d.update(extra or {})
+    return d
+UNITS.append(Unit("tpp.pack_extract", "tpp.c", defines=TPP_DEFS + ["U_PACK"], enforce="pack_ptr_pair", lifts=tpp_lifts(),
+                  funcs=[TPP + ": tagged_ptr_pair::pack_ptr_pair, extract_left_ptr, extract_right_ptr, extract_left_tag, extract_right_tag"],
+                  min_obligations=5))
+SET_RULES = [
+    Sub(r"\b(?:Left|Right)\* (\w+) = ", r"ptr_t \1 = ", None),
+    Sub(r"\b(get_(?:left|right)_(?:ptr|tag))\(\)", r"\1(self)", None),
+    Call(r"\bpack_ptr_pair", "pack_ptr_pair(&self->{0}, {1}, {2}, {3}, {4})", 1),
+]
+for which, (nm, param, is_tag) in enumerate([("set_left_ptr", "lptr", 0), ("set_right_ptr", "rptr", 0), ("set_left_tag", "ltag", 1), ("set_right_tag", "rtag", 1)]):
+    getter = "get_" + nm[4:]
+    UNITS.append(Unit("tpp." + nm, "tpp.c", defines=TPP_DEFS + ["U_SET", "SET_WHICH=%d" % which, "SET_IS_TAG=%d" % is_tag, "SET_GET=" + getter],
+                      enforce="set_field",
+                      lifts=tpp_lifts({"setter": Lift(TPP, r"void %s\((?:Left\* lptr|Right\* rptr|Integral ltag|Integral rtag)\) volatile" % nm,
+                                                       rules=SET_RULES + [Sub(r"\b%s\b" % param, "v", "+")])}),
+                      funcs=[TPP + ": tagged_ptr_pair::" + nm], min_obligations=5))
+
+# ---- queue back-end adapters ----------------------------------------------------------------------------
+BE = "libs/pika/schedulers/include/pika/schedulers/lockfree_queue_backends.hpp"
+BE_RULES = [
+    Call(r"\bqueue_\.(push_left|push_right|enqueue)", "c_{h1}(&self->queue_, {0})", None),
+    Call(r"\bqueue_\.(pop_left|pop_right|try_dequeue)", "c_{h1}(&self->queue_, &{0})", None),
+    Call(r"\bqueue_\.(empty|size_approx)", "c_{h1}(&self->queue_)", None),
+    Sub(r"&val\b", "val", None),   # pop(reference val): val is already a pointer in C
+]
+for idx, be in enumerate(["fifo", "lifo", "abp_fifo", "abp_lifo"]):
+    D = ["B_" + be.upper()]
+    for form, pat in [("push_copy", r"bool push\(const_reference val, bool\s*(?:other_end)?\s*= false\)"),
+                      ("push_move", r"bool push\(rvalue_reference val, bool\s*(?:other_end)?\s*= false\)")]:
+        UNITS.append(Unit("backend.%s.%s" % (be, form), "backends.c", defines=D + ["U_PUSH"], enforce="push",
+                          lifts={"body": Lift(BE, pat, which=idx, expect=4, rules=BE_RULES)},
+                          funcs=[BE + ": lockfree_%s_backend::push" % be]))
+    UNITS.append(Unit("backend.%s.pop" % be, "backends.c", defines=D + ["U_POP"], enforce="pop",
+                      lifts={"body": Lift(BE, r"bool pop\(reference val, bool\s*(?:steal)?\s*= true\)", which=idx, expect=4, rules=BE_RULES)},
+                      funcs=[BE + ": lockfree_%s_backend::pop" % be]))
+    UNITS.append(Unit("backend.%s.empty" % be, "backends.c", defines=D + ["U_EMPTY"], enforce="empty",
+                      lifts={"body": Lift(BE, r"bool empty\(\)", which=idx, expect=4, rules=BE_RULES)},
+                      funcs=[BE + ": lockfree_%s_backend::empty" % be]))
+
 META = {
     "trusted_base": [
         "specs/C17/ciq.c atomic_load/atomic_cas_weak: std::atomic<range> modelled as an indivisible word; before every access "
